@@ -9,6 +9,7 @@
 From Coq Require Import List ZArith Bool.
 From SV Require Import Producer.Msg Producer.Actors Producer.Compose Producer.Weights Producer.Global
                        Producer.Shape Producer.Conservation Producer.Shutdown Producer.Progress Producer.Markers Producer.Examples
+                       Producer.Liveness Producer.Complete
                        Gen.GoInt Gen.DecTypes Gen.DecTypes2 Gen.DecC01 Producer.DecTie.
 Import ListNotations.
 Open Scope Z_scope.
@@ -101,6 +102,74 @@ Theorem c01_progress_partial : forall c s, g_panic s = None ->
   (g_woken s = true -> g_closed s = false -> g_closed (step c s CShutClose) = true).
 Proof. exact progress_partial. Qed.
 Print Assumptions c01_progress_partial.
+
+(* ---- "Close returns": possibility of completion.  Statements about the MODEL's semantics (time-abstract,
+   unbounded queues, one handler invocation = one atomic step), not about real time or back-pressure.
+
+   PARTIAL.  Proved for every reachable state: the two non-trivial places where a message could be stranded
+   have an owner that can move it (no dead end there) -- c01_no_lost_chaser, c01_held_buffer_flushable;
+   the trivial owners are c01_progress_partial.  Proved once and for all: a completed bounded run of the
+   canonical good-environment scheduler IS a completing continuation with everything the property asks for
+   (c01_can_complete_partial).  Checked by computation, not proved in general: that the scheduler does reach
+   completion within the bound mu -- on every prefix of the example schedules and on every state reached by
+   0..120 steps against an always-NotLeader cluster and against always-failing connections, for three
+   configurations (c01_can_complete_instances).  Missing for the unconditional theorem: the ranking argument
+   (next_choice is never None before completion, mu strictly decreases); see checks/notes/C01.md. *)
+
+(* no lost chaser: every partition worker is well formed; whenever it parks a message it is expecting the fin
+   chaser of its current retry level, and that chaser exists, is a well-formed fin of that partition, and sits
+   in a queue whose owner forwards it towards the worker at exactly that level.  Excluded class: the
+   pre-repair interceptor behaviour (c_fix_ic = false: an interceptor could alter the chaser) and a
+   MaxMessageBytes below the size of an empty message (the dispatcher would fail the chaser). *)
+Theorem c01_no_lost_chaser : forall c sched k x i, c_fix_ic c = true -> marker_size c <= c_max_msg_bytes c ->
+  pp_get k (g_pps (run c sched)) = Some x -> l_buf (get_level i (p_levels (pr_st x))) <> [] ->
+  (i < p_hwm (pr_st x) <= c_retry_max c)%nat /\ transit c k (p_hwm (pr_st x)) (run c sched).
+Proof. exact parked_has_chaser. Qed.
+Print Assumptions c01_no_lost_chaser.
+
+Theorem c01_chasers_in_transit : forall c sched, c_fix_ic c = true -> marker_size c <= c_max_msg_bytes c ->
+  (forall k st, ppst k (run c sched) = Some st -> pp_ok c st) /\
+  (forall k st h, ppst k (run c sched) = Some st -> l_chaser (get_level h (p_levels st)) = true -> transit c k h (run c sched)).
+Proof. exact no_lost_chaser. Qed.
+Print Assumptions c01_chasers_in_transit.
+
+(* a broker worker in its run loop that holds messages can hand them to its bridge now, or its timer is armed
+   and it can right after the timer fired.  Excluded class: Flush.Bytes/Messages > 0 without Flush.Frequency
+   (a lone message waits for company, in sarama as in the model). *)
+Theorem c01_held_buffer_flushable : forall c sched b x ep, fcfg c ->
+  nth_error (g_bps (run c sched)) b = Some x -> b_mode (i_st x) = MRun -> set_empty (b_buf (i_st x)) = false ->
+  flush_enabled (i_st x) = true \/
+  (flush_poll (i_st x) = true /\ b_timer (i_st x) = true /\ flush_enabled (fst (bp_step c ep (i_st x) BTimer)) = true).
+Proof. exact held_buffer_flushable. Qed.
+Print Assumptions c01_held_buffer_flushable.
+
+(* the criterion: drain only emits choices of the composition, so a completed bounded drain from a reachable
+   state yields a continuation k (good environment: successful lookups, success answers, timers, one AsyncClose,
+   no further submission) of length <= n after which inFlight = 0, no token of any message is left anywhere,
+   the channels are closed (after all events: c01_close_order) and every message has as many terminal events
+   as submissions *)
+Theorem c01_can_complete_partial : forall c sched n, c_fix_rb c = true ->
+  completed (snd (drain c n (run c sched))) = true ->
+  exists k, (length k <= n)%nat /\
+    let s' := run c (sched ++ k) in
+    g_panic s' = None /\ g_inflight s' = 0 /\ g_closed s' = true /\ g_woken s' = true /\ total f1 s' = 0 /\
+    (forall i, tokens i s' = 0 /\ outcomes i s' = submissions i s').
+Proof. exact can_complete_check. Qed.
+Print Assumptions c01_can_complete_partial.
+
+(* instances, with the candidate measure mu as the bound (can_complete_now c s = completed (drain c (mu c s) s)) *)
+Theorem c01_can_complete_instances :
+  (prefixes_can_complete (cfg_idem true) sched_retrybatch = true /\
+   prefixes_can_complete (cfg_ic true) sched_interceptor_retry = true /\
+   prefixes_can_complete (cfg_ic true) sched_close = true) /\
+  (forallb (fun j => can_complete_now cfg_timer (run cfg_timer (hostile cfg_timer subs4 j))) (seq 0 121) = true /\
+   forallb (fun j => can_complete_now (cfg_ic true) (run (cfg_ic true) (hostile (cfg_ic true) subs4 j))) (seq 0 121) = true /\
+   forallb (fun j => can_complete_now cfg_idem2 (run cfg_idem2 (hostile cfg_idem2 subs4 j))) (seq 0 121) = true) /\
+  (forallb (fun j => can_complete_now cfg_timer (run cfg_timer (broken cfg_timer subs4 j))) (seq 0 121) = true /\
+   forallb (fun j => can_complete_now (cfg_ic true) (run (cfg_ic true) (broken (cfg_ic true) subs4 j))) (seq 0 121) = true /\
+   forallb (fun j => can_complete_now cfg_idem2 (run cfg_idem2 (broken cfg_idem2 subs4 j))) (seq 0 121) = true).
+Proof. exact (conj examples_can_complete (conj hostile_can_complete broken_can_complete)). Qed.
+Print Assumptions c01_can_complete_instances.
 
 (* the pinned tree (retryBatch fails only the first message of an exhausted batch): an outcome is lost and
    inFlight never returns to 0 -- witness: idempotent, Retry.Max = 1, batch of 2, two retriable answers *)
